@@ -66,6 +66,16 @@ def strategy_(draw, tier):
     if opts:
         kw["optimization_options"] = opts
     case["meta"]["route"] = route
+    # requested type int, but the data are fractional: nothing may be reported solved unless it is exact (F36)
+    if kw.get("weight_type") == "int" and draw(st.integers(0, 9)) == 0:
+        for _n, d in case["graph"]["nodes"] + [[None, d] for _u, _v, d in case["graph"]["edges"]]:
+            if "flow" in d:
+                d["flow"] = d["flow"] * 0.5
+        if "solution_weights_superset" in kw:
+            kw["solution_weights_superset"] = [w * 0.5 for w in kw["solution_weights_superset"]]
+        if "given_weights" in (kw.get("optimization_options") or {}):
+            kw["optimization_options"]["given_weights"] = [w * 0.5 for w in kw["optimization_options"]["given_weights"]]
+        case["meta"]["fractional_data_int_type"] = True
     # requested type float, but the data are Python ints (what the package's own examples do)
     if kw.get("weight_type") == "float" and draw(st.integers(0, 2)) == 0:
         items = case["graph"]["nodes"] + [[None, d] for _u, _v, d in case["graph"]["edges"]]
@@ -109,6 +119,8 @@ def run_case(case, tier="quick"):
     labels = {cls, f"route:{route}", f"wt:{wt}", "node" if node_mode else "edge"}
     if (case.get("meta") or {}).get("int_data_float_type"):
         labels.add("int_data_float_type")
+    if (case.get("meta") or {}).get("fractional_data_int_type"):
+        labels.add("fractional_data_int_type")
     try:
         r = run_model(case, tier)
     except Exception as e:
